@@ -16,6 +16,13 @@ import (
 
 	"verif/sim"
 	"verif/simrt"
+	_ "verif/simtest/c01" // attester runs overlapping
+	_ "verif/simtest/c05" // proposer with concurrent unblinding
+	_ "verif/simtest/c08" // multinode submitters
+	_ "verif/simtest/c11" // registration rounds against config refreshes
+	_ "verif/simtest/c12" // config refresh against lookups, auctions, registrations
+	_ "verif/simtest/c13" // account manager refresh against lookups
+	_ "verif/simtest/c18" // cache set / get / clean
 	. "verif/simtest/env"
 	"verif/simtest/syssim"
 )
@@ -184,6 +191,15 @@ func Judge(before int64, out *sim.Outcome) {
 		return
 	}
 	r := races[0]
+	// The detector reports each race once per process, so the run that exposed this race in a
+	// long-lived worker may show other (earlier reported) races first when replayed in a fresh process.
+	if want := os.Getenv("VERIF_EXPECT"); want != "" {
+		for _, x := range races {
+			if "C17/race/"+x.A+"+"+x.B == want {
+				r = x
+			}
+		}
+	}
 	text := r.Text
 	if len(text) > 6000 {
 		text = text[:6000]
@@ -222,7 +238,7 @@ func exec(plan any, sched *simrt.Tape) *sim.Outcome {
 // focused scenarios of other properties, re-run in the -race binary: only the race detector's verdict counts here
 var focused = [][2]string{
 	{"C12", "config-source-chaos"}, {"C12", "lookups-and-rounds"}, {"C11", "registration-rounds"},
-	{"C05", "propose"}, {"C18", "cache"}, {"C08", "multinode-attestations"}, {"C08", "multinode-sync-committee-messages"}, {"C01", "attest-runs"},
+	{"C05", "propose"}, {"C18", "cache"}, {"C08", "multinode-attestations"}, {"C08", "multinode-sync-committee-messages"}, {"C01", "attest-runs"}, {"C13", "dirk"}, {"C13", "wallet"},
 }
 
 func init() {
